@@ -1,6 +1,7 @@
 package main
 
 import (
+	"context"
 	"encoding/json"
 	"errors"
 	"fmt"
@@ -21,6 +22,7 @@ type JReq struct {
 	Kind int
 	Text string
 	Pad  string
+	Gate bool
 }
 type JRes struct {
 	Tag int
@@ -55,6 +57,10 @@ func jOut(tag int, pad string) string {
 
 func (s *JSvc) Do(req *JReq, res *JRes) error {
 	s.w.execs[byte(req.Tag)]++
+	if req.Gate {
+		tag := byte(req.Tag)
+		vs.Block(fmt.Sprintf("gate %d", tag), func() bool { return s.w.gates[tag] })
+	}
 	switch req.Kind {
 	case kHandlerErr:
 		return errors.New(req.Text)
@@ -167,7 +173,7 @@ func c06Body(inflight int, seqClient bool, reduced bool) func(x *X) {
 		var enc string
 		var ti int
 		if reduced {
-			enc = encNames[x.Choose(2)*3] // default or json
+			enc = []string{"", "json", "yield-code"}[x.Choose(3)]
 			ti = 3
 		} else {
 			enc = encNames[x.Choose(len(encNames))]
@@ -220,7 +226,70 @@ func c06Body(inflight int, seqClient bool, reduced bool) func(x *X) {
 	}
 }
 
+// a failing call is abandoned by its caller (context done) while its error response arrives: the
+// other outstanding call and the later calls are unaffected
+func c06Abandoned(x *X) {
+	enc := []string{"", "json", "yield-code"}[x.Choose(3)]
+	pipe := x.Choose(2) == 1
+	jc := func() rpc.Codec { return rpc.NewJSONCodec() }
+	so := srvOpts{bufSize: 256, enc: enc, codec: jc}
+	f := newFixture(so, cliOpts{bufSize: 256, pipelining: pipe})
+	f.srv.Register(&JSvc{f.w})
+	ctx := newCtx(nil)
+	var aErr error
+	aDone := false
+	var aRep JRes
+	vs.GoNamed("abandoned", func() {
+		aErr = f.conn.CallWithContext(ctx, "JSvc.Do", &JReq{Tag: 1, Kind: kHandlerErr, Text: "failing call", Gate: true}, &aRep)
+		aDone = true
+	})
+	b := &jcall{tag: 2, kind: kOK, pad: "bbbbbbbbbbbbbbbbbbbb"}
+	var bRep JRes
+	var bErr error
+	bDone := false
+	vs.GoNamed("other", func() {
+		bErr = f.conn.Call("JSvc.Do", &JReq{Tag: 2, Kind: kOK, Pad: b.pad, Gate: true}, &bRep)
+		bDone = true
+	})
+	vs.Quiesce()
+	vs.GoNamed("canceller", func() { ctx.cancel(context.Canceled) })
+	vs.GoNamed("opener", func() { f.w.open(1) })
+	vs.Quiesce()
+	// the next caller may get the recycled Call object
+	c := &jcall{tag: 3, kind: kOK, pad: "cccccccc"}
+	var cRep JRes
+	var cErr error
+	cDone := false
+	vs.GoNamed("next", func() {
+		cErr = f.conn.Call("JSvc.Do", &JReq{Tag: 3, Kind: kOK, Pad: c.pad, Gate: true}, &cRep)
+		cDone = true
+	})
+	vs.Quiesce()
+	if cDone {
+		x.Fail("C06/neighbour-completed-early", "a call issued after a failing call was abandoned returned (err=%v, reply %+v) while its handler is still running", cErr, cRep)
+	}
+	if bDone {
+		x.Fail("C06/neighbour-completed-early", "the other outstanding call returned (err=%v) while its handler is still running", bErr)
+	}
+	f.w.open(2)
+	f.w.open(3)
+	vs.Quiesce()
+	if !aDone || (aErr != context.Canceled && (aErr == nil || aErr.Error() != "failing call")) {
+		x.Fail("C06/error-text/abandoned", "the abandoned failing call returned done=%v err=%v", aDone, aErr)
+	}
+	if !bDone || bErr != nil || bRep.Out != jOut(2, b.pad) {
+		x.Fail("C06/neighbour-failed/abandoned", "the other outstanding call: done=%v err=%v reply=%+v", bDone, bErr, bRep)
+	}
+	if !cDone || cErr != nil || cRep.Out != jOut(3, c.pad) {
+		x.Fail("C06/neighbour-failed/abandoned", "the later call: done=%v err=%v reply=%+v", cDone, cErr, cRep)
+	}
+	x.Outcome("enc=%s pipe=%v a=%s", enc, pipe, errStr(aErr))
+	f.conn.Close()
+	vs.Quiesce()
+}
+
 func init() {
+	register(&Scenario{Prop: "C06", Name: "c06/failing-call-abandoned", Quick: []Bound{{1, 0}, {2, 0}}, Thorough: []Bound{{3, 0}}, Body: c06Abandoned, BudgetQ: 20})
 	register(&Scenario{Prop: "C06", Name: "c06/2inflight", Quick: []Bound{{0, 0}, {1, 0}}, Thorough: []Bound{{2, 0}}, Body: c06Body(2, false, false), BudgetQ: 40})
 	register(&Scenario{Prop: "C06", Name: "c06/3inflight", Quick: []Bound{{0, 0}}, Thorough: []Bound{{1, 0}}, Body: c06Body(3, false, false), BudgetQ: 20})
 	register(&Scenario{Prop: "C06", Name: "c06/3inflight-reduced", Quick: []Bound{{1, 0}}, Thorough: []Bound{{2, 0}}, Body: c06Body(3, false, true), BudgetQ: 30})
